@@ -103,6 +103,21 @@ func c08prop(ev *evid.Rec) func(rt *rapid.T) {
 		if mode == "resume" || mode == "preview-resume" {
 			k = genOffset(rt, "offset", size)
 		}
+		// how the client lays out its resume data: the data fork entry alone, followed by a resource fork entry, or with the
+		// fork type written the way some clients do (lower case, or left empty)
+		resumeLayout, oddTag := "DATA", false
+		resumeField := hlref.ResumeData(k)
+		if mode == "resume" {
+			resumeLayout = rapid.SampledFrom([]string{"DATA", "DATA", "DATA+MACR", "data", "untagged"}).Draw(rt, "resumeLayout")
+			switch resumeLayout {
+			case "DATA+MACR":
+				resumeField = hlref.EncodeResume([]hlref.ForkOffset{{Fork: [4]byte{'D', 'A', 'T', 'A'}, Offset: uint32(k)}, {Fork: [4]byte{'M', 'A', 'C', 'R'}, Offset: 0}})
+			case "data":
+				resumeField, oddTag = hlref.EncodeResume([]hlref.ForkOffset{{Fork: [4]byte{'d', 'a', 't', 'a'}, Offset: uint32(k)}}), true
+			case "untagged":
+				resumeField, oddTag = hlref.EncodeResume([]hlref.ForkOffset{{Fork: [4]byte{}, Offset: uint32(k)}}), true
+			}
+		}
 		inFolder := rapid.Bool().Draw(rt, "infolder")
 		// now and then the file lies very deep: more folders than fit one byte of the path's 16-bit item count
 		deep := 0
@@ -178,7 +193,7 @@ func c08prop(ev *evid.Rec) func(rt *rapid.T) {
 			}
 			switch mode {
 			case "resume":
-				fs = append(fs, fld(hlref.FFileResumeData, hlref.ResumeData(k)))
+				fs = append(fs, fld(hlref.FFileResumeData, resumeField))
 			case "preview":
 				fs = append(fs, fld(hlref.FFileTransferOptions, hlref.BE16(2)))
 			case "preview-resume":
@@ -186,7 +201,7 @@ func c08prop(ev *evid.Rec) func(rt *rapid.T) {
 				fs = append(fs, fld(hlref.FFileResumeData, hlref.ResumeData(k)), fld(hlref.FFileTransferOptions, hlref.BE16(2)))
 			}
 			r := c.Request(hlref.TranDownloadFile, fs...)
-			ctx := fmt.Sprintf("download %q size=%d mode=%s offset=%d info=%v rsrc=%v(%d) via-alias=%v", name, size, mode, k, storedInfo, storedRsrc, len(rsrc), viaAlias)
+			ctx := fmt.Sprintf("download %q size=%d mode=%s offset=%d (resume data layout %s) info=%v rsrc=%v(%d) via-alias=%v", name, size, mode, k, resumeLayout, storedInfo, storedRsrc, len(rsrc), viaAlias)
 			if !okReply(r) {
 				rt.Fatalf("%s: download request not granted: %s", ctx, replySummary(r))
 			}
@@ -195,6 +210,11 @@ func c08prop(ev *evid.Rec) func(rt *rapid.T) {
 			fsz, ok2 := r.Get(hlref.FFileSize)
 			if len(ref) != 4 || !ok1 || !ok2 || len(ts) != 4 || len(fsz) != 4 {
 				rt.Fatalf("%s: reply lacks reference number / sizes: %s", ctx, replySummary(r))
+			}
+			if oddTag && hlref.U32(fsz) == size {
+				// the first fork entry is not tagged DATA: a server may take that as "no data fork offset"; what it announces and
+				// what it sends must then both be the whole file
+				k = 0
 			}
 			if hlref.U32(fsz) != size-k {
 				rt.Fatalf("%s: reply announces file size %d, remaining data is %d", ctx, hlref.U32(fsz), size-k)
